@@ -310,7 +310,7 @@ class Recorder:
                     self.finding("nonhood.zero", "empty neighbourhood: predict drew %r whose probability is 0" % (arm,), where)
         self.events.append({"op": "query", "q": list(x), "qg": qg})
         self.queries.append({"event": len(self.events), "q": list(x), "result": result, "twin": twin2, "seed": seed,
-                             "arms": list(self.arms), "calls": list(self.calls),
+                             "ctx": list(ctx[0]), "arms": list(self.arms), "calls": list(self.calls),
                              "tags": ["clusters_readded_arm_pending"] if self.pending_readd else []})
 
     def query_batch(self, xs):
@@ -536,7 +536,7 @@ def expected_maps(cfg, allowed, arms, lm):
     return out
 
 
-def library_policy_on(cfg, twin, sel, q, seed):
+def library_policy_on(cfg, twin, sel, q, seed, ctx=None):
     """The library's learning policy trained from scratch on the spec-selected rows, from the row's seed."""
     from mabwiser.utils import create_rng
     imp = twin._imp
@@ -544,7 +544,8 @@ def library_policy_on(cfg, twin, sel, q, seed):
     lp.rng = create_rng(seed)
     idx = np.asarray([i - 1 for i in sel], dtype=int)
     lp.fit(imp.decisions[idx], imp.rewards[idx], imp.contexts[idx])
-    return lp.predict_expectations(np.asarray([cfg.cx(q)], dtype=float))
+    # ctx: the coordinates actually passed (a scaled copy of a stored row carries a placeholder as q)
+    return lp.predict_expectations(np.asarray([ctx if ctx is not None else cfg.cx(q)], dtype=float))
 
 
 def compare_queries(cfg, rec, tid, oracles):
@@ -584,7 +585,7 @@ def compare_queries(cfg, rec, tid, oracles):
             ok = False
             cands = []
             for res in allowed:
-                want = library_policy_on(cfg, query["twin"], res["sel"], query["q"], query["seed"])
+                want = library_policy_on(cfg, query["twin"], res["sel"], query["q"], query["seed"], query.get("ctx"))
                 cands.append(want)
                 if same(result, want):
                     ok = True
